@@ -231,6 +231,9 @@ func TestC20(t *testing.T) {
 			return &C03AllPerms{DT: rapid.SampledFrom([]string{"int8", "int16", "float32", "float64", "complex128", "string"}).Draw(rt, "dt"), Shape: shape, Op: "T+Transpose", L: Layout{Root: "rm"}}
 		})
 	}
+	c20cell(t, "C03.allperms", "allperms/word-boundaries", nCases(6, 80), func(rt *rapid.T) Case {
+		return genWordBoundaryTranspose(rt, rapid.SampledFrom([]string{"pkgTranspose", "T+Transpose"}).Draw(rt, "op"))
+	})
 	// ---- arithmetic with every option mode under each engine
 	for _, eng := range []string{"", "f64", "f32"} {
 		for _, op := range []string{"Add", "Sub", "Mul", "Div"} {
